@@ -281,8 +281,44 @@ func (c *Ctx) c16BuiltinNamed() {
 	}
 }
 
+// c16BuiltinNamedVars: the same for package-level variables and constants spelled like builtins (fix 72c716b): functions
+// are compiled before the package's variables, so only the declaration of the names up front makes a body see them
+func (c *Ctx) c16BuiltinNamedVars() {
+	for _, name := range []string{"print", "println", "len", "cap", "copy"} {
+		for kind, decl := range map[string]string{"var": "var " + name + " = 3", "const": "const " + name + " = 3", "var group": "var (\n\tother = 1\n\t" + name + " = 3\n)"} {
+			use := "func Use() int {\n\treturn " + name + " + 1\n}"
+			meth := "type T struct {\n\tn int\n}\n\nfunc (t *T) M() int {\n\treturn " + name + " * t.n\n}"
+			main := "func Main() {\n\tt := &T{n: 5}\n\tfmt.Println(Use(), t.M(), " + name + ")\n}"
+			want := "4 15 3\n"
+			file := func(decls ...string) *fstest.MapFile {
+				return &fstest.MapFile{Data: []byte("package app\n\nimport \"fmt\"\n\n" + strings.Join(decls, "\n\n") + "\n")}
+			}
+			bare := func(decls ...string) *fstest.MapFile {
+				return &fstest.MapFile{Data: []byte("package app\n\n" + strings.Join(decls, "\n\n") + "\n")}
+			}
+			layouts := map[string]fstest.MapFS{
+				"declared first":            {"app/a.go": file(decl, use, meth, main)},
+				"declared last":             {"app/a.go": file(use, meth, main, decl)},
+				"declared in the last file": {"app/a.go": file(use, main), "app/b.go": bare(meth), "app/z.go": bare(decl)},
+			}
+			for _, l := range sortedKeys(layouts) {
+				c.Rep.Oracle["package-permutation"]++
+				c.Rep.Count("builtin-named-layout")
+				if got := c16Run(layouts[l]); got != want {
+					var text []string
+					for _, f := range sortedKeys(layouts[l]) {
+						text = append(text, "// "+f+"\n"+string(layouts[l][f].Data))
+					}
+					c.Rep.Violate(Violation{Kind: "oracle", Cut: "package-permutation", Input: kind + " " + name + " " + l + ":\n" + strings.Join(text, "\n"), Impl: got, Oracle: want})
+				}
+			}
+		}
+	}
+}
+
 func runC16(c *Ctx) error {
 	c.c16BuiltinNamed()
+	c.c16BuiltinNamedVars()
 	c.Rep.Rule = "tsort: random lists of top-level node kinds (all table kinds, statement kinds, unknown kinds), length 0..40, permutation compared with the model; packages: generated packages (struct types, methods, mutually referring functions incl. forward references, chained consts, var initialisers with printed side effects, init) under random permutations of the hoistable declarations x random partitions into 1..4 files, the package loaded directly or imported from a nested / vendored path (import path differs from the package name); distinct = distinct kind list / (package, permutation, partition); non-trivial = list has >= 2 different priorities / package has >= 6 declarations"
 	r := c.RNG
 	kinds := []string{"package", "import", "type", "const", "method", "function", "init", "var", ":=", "=", "call", "for", "if", "switch", "range", "return", "(name)", "+=", "block", "zzz"}
